@@ -227,11 +227,16 @@ func runPoller(chk *vcommon.Check, thorough bool) {
 	}
 	rec(nil)
 	n := 0
-	for _, have := range []int{0, 2} { // certificates the client already holds
+	type holding struct{ have, gain int }
+	for _, hg := range []holding{{0, 0}, {2, 0}, {0, 3}, {1, 2}} { // certificates the client holds when the poller is created + gained locally before the poll
+		have := hg.have + hg.gain
 		for _, peerHas := range []int{0, 1, 3, total} {
 			for _, script := range scripts {
+				if hg.gain > 0 && len(script) > 1 {
+					continue // local gains are combined with single-behaviour scripts only
+				}
 				n++
-				st := newStore(0, chain[:have])
+				st := newStore(0, chain[:hg.have])
 				step := 0
 				// validSent: the longest prefix of certificates (by instance, from `have`) the peer has sent validly so far
 				resp := &vnet.Responder{Host: peerHost, NN: nn}
@@ -332,10 +337,16 @@ func runPoller(chk *vcommon.Check, thorough bool) {
 				if err != nil {
 					panic(err)
 				}
+				// the store advances locally (the node's own consensus) between the creation of the poller and the poll
+				for _, c := range chain[hg.have:have] {
+					if err := st.Put(bg, c); err != nil {
+						panic(err)
+					}
+				}
 				before := uint64(have)
 				res, err := p.Poll(bg, peerHost.ID())
-				rep := map[string]any{"kind": "poller", "client_has": have, "peer_has": peerHas, "script": script}
-				where := fmt.Sprintf("client holds %d, peer holds %d, script %v", have, peerHas, script)
+				rep := map[string]any{"kind": "poller", "client_has": hg.have, "gained_locally": hg.gain, "peer_has": peerHas, "script": script}
+				where := fmt.Sprintf("client holds %d (+%d gained locally before the poll), peer holds %d, script %v", hg.have, hg.gain, peerHas, script)
 				if err != nil {
 					chk.Violation("poll-internal-error", fmt.Sprintf("%s: Poll returned error %v", where, err), rep)
 					return
@@ -411,7 +422,7 @@ func main() {
 		runPoller(chk, thorough)
 	}
 	chk.Set("exhaustive", chk.Violations() == 0)
-	chk.Set("rule", "server: every store of length 0..5 (7) with first instance 0 and 5 x first in {0..len+2, 2^64-2, 2^64-1} x limit in {0,1,2,len,256,257,2^64-1} x power-table flag, read both with a raw stream reader (everything on the wire) and with the production client; poller: every script of <=2 (3) responder behaviours out of 12 (honest, forged signature, wrong delta, reordered, duplicated, gap, truncated, over-long, pending too high/low, reset, one-at-a-time) x client holding {0,2} x peer holding {0,1,3,6} certificates against the real Poller")
+	chk.Set("rule", "server: every store of length 0..5 (7) with first instance 0 and 5 x first in {0..len+2, 2^64-2, 2^64-1} x limit in {0,1,2,len,256,257,2^64-1} x power-table flag, read both with a raw stream reader (everything on the wire) and with the production client; poller: every script of <=2 (3) responder behaviours out of 12 (honest, forged signature, wrong delta, reordered, duplicated, gap, truncated, over-long, pending too high/low, reset, one-at-a-time) x client holding {0,2} (or gaining 3 / 2 certificates locally between poller creation and poll) x peer holding {0,1,3,6} certificates against the real Poller")
 	chk.Assume("mocknet streams; fake signing backend; the poller is driven through its public API")
 	chk.Finish()
 }
